@@ -647,24 +647,83 @@ def _fill_regions(tree, acc, owner):
 
 def c13_short_chain_not_cut(case, obs, flavor):
     """C13: "chains shorter than the bound run to their natural end".  The queue / raise-chain breaker may only fire
-    in a step in which the machine sent itself MORE than `maxIterations` events, on both engines.  sync: the budget
-    of one drain is `maxIterations` + the number of events queued when the drain starts (`budget = limit +
-    len(self._event_queue)`, test `processed > budget`), so the external event of the step, events left queued by
-    an earlier send() that raised, and whatever start() queued before its drain do not count - a cut needs at least
-    `maxIterations + 1` events enqueued WHILE draining, all of them self-sends of this step (Lean:
-    `C13.short_chain_not_cut_sync` / `sync_cut_needs_long_chain`).  async: the counter must EXCEED the bound
-    (`C13.short_chain_not_cut_async`).  `self_sends` counts the interpreter's own send() calls in the step,
-    `chain_cuts` the breaker's error logs (not the always-settling bound).  No step is skipped: a sync step that
-    starts with a non-empty queue (the previous send raised) is held to the same threshold.
+    in a step in which MORE than `maxIterations` self-sent events come up, on both engines.
+    sync (second repair of F10): `_process_event_queue` counts the dequeues of MARKED events only - events enqueued by
+    `send()` / `send_events()` while a drain was in flight (`_raised_in_drain`: every `raise`, `done.state.*`, send made
+    by an action; also during `start()`) - and a cut happens when a marked event is dequeued as the
+    `maxIterations + 1`-st of the drain since the last cut.  The marks OUTLIVE a drain that ended with an error, so the
+    marked events a step finds queued count too: a cut needs `(marked entries queued when the drain starts) + (events
+    enqueued while draining) > maxIterations` (Lean: `C13.short_chain_not_cut_sync` / `sync_cut_needs_long_chain`,
+    hypothesis `cntSelf s.queue + |drainRaised| <= maxIterations`).  The observation has the LENGTH of the queue left by
+    the previous step (`qlen`), an upper bound of the marked entries in it; the external event of the step is never
+    marked and never counts.  async: the counter must EXCEED the bound (`C13.short_chain_not_cut_async`); every step
+    starts from a drained queue.  `self_sends` counts the interpreter's own send() calls in the step, `chain_cuts` the
+    breaker's error logs (not the always-settling bound).
     This is the reading per BUSY PERIOD (one event per step here, so a step is one chain). Many chains sharing one busy
     period - a `send_events` burst - are held to the per-CAUSAL-CHAIN reading by the rule `short-chains-cut-by-burst` of
     `c14.c04_monitor` (q_check `c14.c13_bursts_of_short_chains`; open finding F70)."""
     out = []
     limit = case["machine"].get("maxIterations", 1000)
     for i, o in enumerate(obs):
-        if o.get("chain_cuts") and o.get("self_sends", 1 << 30) <= limit:
+        left = obs[i - 1].get("qlen", 0) if (flavor == "sync" and i > 0) else 0
+        if o.get("chain_cuts") and o.get("self_sends", 1 << 30) + left <= limit:
             out.append({"kind": "short-chain-cut", "step": i, "at": None,
                         "detail": f"the chain breaker fired ({o['chain_cuts']} time(s)) in a step in which the machine sent itself only "
-                                  f"{o['self_sends']} event(s); maxIterations={limit}",
-                        "self_sends": o["self_sends"], "limit": limit})
+                                  f"{o['self_sends']} event(s)" + (f" and found {left} event(s) queued" if left else "") +
+                                  f"; maxIterations={limit}",
+                        "self_sends": o["self_sends"], "left_queued": left, "limit": limit})
+    return out
+
+
+def c13_queue_growth(case, obs, flavor):
+    """C13, the regression of the FIRST repair of F10 (real code, both engines): what a step leaves queued, and the work
+    one step does, must stay within what ONE drain can do - whatever earlier steps left behind.
+
+    The first repair (`budget = maxIterations + len(queue at drain start)`) exempted the events LEFT QUEUED by a sync
+    drain that ended with an error - mostly self-raised ones - from the bound: the next `send()` processed ALL of them,
+    each enqueuing several more, and with a fan-out machine the queue grew geometrically from send to send
+    (24 -> 473 -> 10,467 -> 232,817; corpus/000_f10b_loopfaults_0_100.json).  Lean (`Xsm/Properties/C13.lean`):
+      * `sync_drain_work_bounded` / `drainLoop_bound`: one `_process_event_queue()` PROCESSES at most
+        `B = n*(maxIterations+1) + maxIterations` events, `n` the EXTERNAL events queued when it starts - independent of
+        the number of marked leftovers (async, `asyncStep_measure`: at most `(n+1)*(maxIterations+4)` iterations);
+      * `leftovers_stay_bounded`: the marked events queued when it returns are at most those queued when it started - NONE
+        of them if the bound cut, a cut purges them all - plus what this drain enqueued, at most `K` per processed event.
+    On the run: `n <= i` in step `i` (one external event per step; `start()`: none - what it queues is marked; async: the
+    queue is drained between steps, `n <= 1 + qlen` left by the previous step, and what `start()` itself queues is
+    unmarked there: `n <= self_sends`), the events processed are the `#recv:` records of the step, what the step enqueued
+    is `self_sends`, so its fan-out per processed event is `K = ceil(self_sends / recv)`.  Two rules:
+      * `drain-processes-too-many-events`: `recv > B`;
+      * `queue-grows-across-sends`: `qlen > n + carry + K*B` with `carry` = the previous `qlen` (0 after a cut) - a bound
+        proportional to what one drain can enqueue, the tighter form of `(maxIterations+2)*(max self-sends of a step+1)`.
+    Both hold of every run of the current engines; the first repair breaks both in the second step of the corpus case."""
+    out = []
+    limit = case["machine"].get("maxIterations", 1000)
+    prev_q = 0
+    for i, o in enumerate(obs):
+        if "qlen" not in o or "self_sends" not in o:
+            prev_q = o.get("qlen", 0)
+            continue
+        recv = sum(1 for r in o["T"] if r.startswith("#recv:"))
+        ss = o["self_sends"]
+        if flavor == "sync":
+            n = i
+            bound = n * (limit + 1) + limit
+        else:
+            n = (ss if i == 0 else 1) + prev_q
+            bound = (n + 1) * (limit + 4)
+        carry = 0 if o.get("chain_cuts") else prev_q
+        k = -(-ss // max(1, recv))
+        if recv > bound:
+            out.append({"kind": "drain-processes-too-many-events", "step": i, "at": None,
+                        "detail": f"step {i} processed {recv} events; one drain processes at most {bound} "
+                                  f"(external events queued <= {n}, maxIterations={limit}) whatever was left queued before "
+                                  f"({prev_q} event(s))", "received": recv, "bound": bound, "limit": limit, "left_queued": prev_q})
+        qb = n + carry + k * bound
+        if o["qlen"] > qb:
+            out.append({"kind": "queue-grows-across-sends", "step": i, "at": None,
+                        "detail": f"step {i} left {o['qlen']} events queued (the previous step left {prev_q}); bound {qb} = "
+                                  f"{n} external + {carry} carried over + {k} (self-sends per processed event: {ss}/{recv}) x {bound} "
+                                  f"(events one drain may process, maxIterations={limit})",
+                        "qlen": o["qlen"], "bound": qb, "self_sends": ss, "received": recv, "limit": limit, "left_queued": prev_q})
+        prev_q = o["qlen"]
     return out
